@@ -252,3 +252,15 @@ for _p in ("C11", "C06", "C03", "C02"):
 for _p in ("C08", "C17"):
     REGISTRY[_p]["theorems"] += T("Proofs.Bridge.Tables", "BLDFM.Bridge", ["tower_local_xy_table"], "bridge")
     REGISTRY[_p]["kernel_groups"].append("Tables")
+
+REPR = T("Proofs.Lemmas.Repr", "BLDFM.Spec", ["dft2_pos", "dft2_neg", "sum_over_slots", "untrunc_eq", "solver_repr"], "lemma")
+ORTHO = T("Proofs.Lemmas.Ortho", "BLDFM.Spec", ["sum_rootPow", "sfreq_dvd_iff", "field_sum_eq_dc"], "lemma")
+REGISTRY["C02"]["theorems"] += T("Proofs.C02b", "BLDFM.C02", ["flux_coef", "srcSpectrum_formula", "footprint_reciprocity_flux", "footprint_reciprocity_flux_real"]) + REPR
+REGISTRY["C02"]["partial_clauses"] = ["single-precision storage rounding",
+    "the FLUX reciprocity is a theorem through the whole model pipeline (footprint_reciprocity_flux_real); the analogous statement for the concentration "
+    "Green's function (same proof with the concentration transfer and the background offset) is decided by the oracle"]
+REGISTRY["C03"]["theorems"] += T("Proofs.C03b", "BLDFM.C03", ["fieldsAt_eq", "flux_sum_padded", "conc_sum_padded", "footprint_unit_sum", "dc_source_is_mean", "mean_flux_conserved"]) + REPR + ORTHO
+REGISTRY["C03"]["partial_clauses"] = ["float rounding", "halo == explicit zero-padding + crop as an identity between two solver calls: the size/placement part is a theorem "
+    "(halo_is_zero_padding, registered), the equality of the two calls' fields is decided by the oracle"]
+REGISTRY["C11"]["theorems"] += REPR
+REGISTRY["C06"]["theorems"] += REPR
